@@ -47,6 +47,31 @@ def logical(snap, under=None, skip_dirs_top=False):
     return out
 
 
+def reachable(snap, root):
+    """objects reachable from a recorded checksum through the manifests of this snapshot"""
+    seen = set()
+    todo = [root]
+    while todo:
+        d = todo.pop()
+        if d in seen or not d or d == "-":
+            continue
+        seen.add(d)
+        for cs, isdir in snap["manifests"].get(d, []):
+            todo.append(cs)
+    return seen
+
+
+def recorded(snap):
+    """{artifact path: recorded checksum} from the stage files of a snapshot"""
+    rec = {}
+    for l in snap["lines"]:
+        if l.startswith("s "):
+            for t in l.split()[3:]:
+                parts = t.split(":")
+                rec[unhx(parts[1])] = parts[2]
+    return rec
+
+
 def artifacts(case, outputs_only=True):
     arts = []
     for sp, st in case["stages"]:
@@ -144,3 +169,77 @@ def evaluate(R, runs, oracle, finding_of=None, nontrivial=None, max_report=5):
                          note="the implementation no longer behaves as the model the theorems are about; "
                               "the property oracle held on every run of this check"), nofail=True)
     return diverged
+
+
+def parse_tree(s):
+    """parse '(name isDir ws has inC cm (child...) ...)' -> dict"""
+    pos = [0]
+
+    def node():
+        assert s[pos[0]] == "("
+        pos[0] += 1
+        j = pos[0]
+        while s[j] not in "()":
+            j += 1
+        toks = s[pos[0]:j].split()
+        pos[0] = j
+        kids = []
+        while s[pos[0]] == "(":
+            kids.append(node())
+            while s[pos[0]] == " ":
+                pos[0] += 1
+        assert s[pos[0]] == ")"
+        pos[0] += 1
+        while pos[0] < len(s) and s[pos[0]] == " ":
+            pos[0] += 1
+        return dict(name=unhx(toks[0]), isdir=toks[1] == "1", ws=toks[2], has=toks[3] == "1", inc=toks[4] == "1",
+                    cm=toks[5] == "1", kids=kids)
+    return node()
+
+
+def status_of(step):
+    """{artifact path: dict(text, tree)} from the status lines of a step"""
+    out = {}
+    for l in step["status"]:
+        if l.startswith("a "):
+            _, sp, ap, text, tree = l.split(" ", 4)
+            out[unhx(ap)] = dict(stage=unhx(sp), text=unhx(text).decode("utf-8", "replace"), tree=parse_tree(tree))
+    return out
+
+
+def generic_main(prop, tier, replay, make_cases, oracle, finding_of=None, nontrivial=None, rule="", trusted=(),
+                 n_quick=80, n_thorough=800, seed_salt=0, extra=None, audit=True):
+    import random, json, vlib, s1
+    R = vlib.Result(prop, tier)
+    R.cov["rule"] = rule
+    R.cov["checker_cmd"] = "cd lean && lake build DudModel.Props.%s && lake env lean <audit file: #print axioms of every theorem>" % prop
+    R.cov["trusted_base"] = vlib.TRUSTED_COMMON + list(trusted)
+    dud = vlib.build_dud()
+    drv = vlib.build_driver()
+    rng = random.Random(vlib.seed() * 1000 + seed_salt)
+    if replay:
+        j = json.load(open(replay))
+        cases = [case_unjson(v["case"]) for v in j.get("violations", []) + j.get("unproved", []) if "case" in v]
+        stats = {}
+    else:
+        cases, stats = make_cases(rng, tier, n_quick if tier == "quick" else n_thorough)
+    runs, traces = s1.run_cases(dud, drv, cases)
+    evaluate(R, runs, oracle, finding_of, nontrivial)
+    R.cov["distribution"] = stats
+    mix = {}
+    for c in cases:
+        for op in c["ops"]:
+            mix[op[0]] = mix.get(op[0], 0) + 1
+    R.cov["op_mix"] = mix
+    for run in runs[:3]:
+        R.sample(describe(run["case"]))
+    if extra:
+        extra(R, dud, drv, rng, tier, runs)
+    if audit:
+        R.absorb_audit(vlib.lean_audit(prop))
+        if tier == "thorough":
+            ok, log = vlib.leanchecker(["DudModel.Props." + prop])
+            R.notes["leanchecker"] = "ok" if ok else log
+            if not ok:
+                R.violation(dict(kind="leanchecker", detail=log), nofail=True)
+    return R.finish()
